@@ -314,6 +314,7 @@ type Env struct {
 	inOld  bool
 	specFn string // name of spec function being defined (recursion)
 	oldVars map[string]*SV // variable bindings to use inside old()
+	unfoldDepth int
 }
 
 func (e *Env) child() *Env {
@@ -1067,12 +1068,20 @@ func (e *Env) specCall(sf *SpecFunc, x *ECall) *SV {
 	spkg := e.pkg
 	if sp := c.prog.ByPath[sf.Pkg]; sp != nil {
 		spkg = sp.Pkg
+	} else if sf.Pkg != "" {
+		for _, p := range c.prog.Prog.AllPackages() {
+			if p.Pkg.Path() == sf.Pkg {
+				spkg = p.Pkg
+			}
+		}
 	}
 	var args []string
+	var argSVs []*SV
 	for i, a := range x.Args {
 		pt := c.resolveType(sf.Params[i].Type, spkg)
 		v := e.coerce(e.eval(a), pt)
 		args = append(args, v.S)
+		argSVs = append(argSVs, &SV{S: v.S, T: pt})
 	}
 	resT := c.resolveType(sf.Result, spkg)
 	key := sf.Name
@@ -1085,10 +1094,43 @@ func (e *Env) specCall(sf *SpecFunc, x *ECall) *SV {
 		hargs = append(hargs, c.heapGet(e.st, hk, c.heapSortsM[hk]))
 	}
 	all := append(hargs, args...)
-	if len(all) == 0 {
-		return &SV{S: "spec." + sf.Name, T: resT}
+	term := "spec." + sf.Name
+	if len(all) > 0 {
+		term = "(spec." + sf.Name + " " + strings.Join(all, " ") + ")"
 	}
-	return &SV{S: "(spec." + sf.Name + " " + strings.Join(all, " ") + ")", T: resT}
+	if sf.Rec && sf.Body != nil && e.st.paramHeaps == nil && groundTerm(term) {
+		// one definitional unfolding per ground occurrence (fuel 1): T = body[args]
+		if c.unfolded == nil {
+			c.unfolded = map[string]bool{}
+		}
+		if !c.unfolded[term] && e.unfoldDepth < sf.fuel() {
+			c.unfolded[term] = true
+			ue := &Env{c: c, vars: map[string]*SV{}, st: e.st, pkg: spkg, unfoldDepth: e.unfoldDepth + 1}
+			for i, p := range sf.Params {
+				ue.vars[p.Name] = argSVs[i]
+			}
+			body := ue.coerce(ue.eval(sf.Body), resT)
+			c.axioms = append(c.axioms, "(= "+term+" "+body.S+")")
+		}
+	}
+	return &SV{S: term, T: resT}
+}
+
+func (sf *SpecFunc) fuel() int {
+	if sf.Fuel > 0 {
+		return sf.Fuel
+	}
+	return 1
+}
+
+// groundTerm: no bound variable (quantifier variable, spec parameter or heap parameter) occurs.
+func groundTerm(t string) bool {
+	for _, tok := range strings.FieldsFunc(t, func(r rune) bool { return r == ' ' || r == '(' || r == ')' }) {
+		if strings.HasPrefix(tok, "q.") || strings.HasPrefix(tok, "a.") || strings.HasPrefix(tok, "hp.") || tok == "j!" || tok == "r!" || tok == "k!" {
+			return false
+		}
+	}
+	return true
 }
 
 func (c *Ctx) defineSpec(sf *SpecFunc, spkg *types.Package, resT types.Type) *specInst {
@@ -1140,12 +1182,23 @@ func (c *Ctx) defineSpec(sf *SpecFunc, spkg *types.Package, resT types.Type) *sp
 	for _, hk := range inst.heaps {
 		hp = append(hp, "(hp."+hk+" "+c.heapSortsM[hk]+")")
 	}
-	kw := "define-fun"
 	if sf.Rec {
-		kw = "define-fun-rec"
-		c.uses["rec"] = true
+		// recursive spec functions are uninterpreted; their definition is supplied by
+		// unfolding facts at ground occurrences (see specCall)
+		var sorts []string
+		for _, hk := range inst.heaps {
+			sorts = append(sorts, c.heapSortsM[hk])
+		}
+		sorts = append(sorts, psorts...)
+		if len(sorts) == 0 {
+			c.declareConst("spec."+sf.Name, rs)
+		} else {
+			c.declareFun("spec."+sf.Name, sorts, rs)
+		}
+		_ = bodyS
+	} else {
+		c.decls = append(c.decls, fmt.Sprintf("(define-fun spec.%s (%s) %s %s)", sf.Name, strings.Join(append(hp, params...), " "), rs, bodyS))
 	}
-	c.decls = append(c.decls, fmt.Sprintf("(%s spec.%s (%s) %s %s)", kw, sf.Name, strings.Join(append(hp, params...), " "), rs, bodyS))
 	for _, ax := range sf.Axioms {
 		st := newState()
 		env := &Env{c: c, vars: map[string]*SV{}, st: st, pkg: spkg}
